@@ -111,7 +111,7 @@ def b_bigint(u, rng, n):
         d = '''
 big%(u)s(n: SI): Integer == { f: Integer := 1; for i: SI in 1..n repeat f := f * (i::Integer); f rem 1000000007 }
 ''' % dict(u=u)
-        nn = min(n, 400)
+        nn = min(n, 400) if rng.chance(1, 2) else min(max(n, 450), 900)
     elif kind == "pow":
         d = '''
 big%(u)s(n: SI): Integer == { s: Integer := 0; for i: SI in 1..n repeat s := s + (i::Integer)^((i rem 40 + 2)::Integer); s rem 1000000007 }
@@ -134,7 +134,8 @@ def b_bigops(u, rng, n):
     """Big-integer primitives beyond + * ^ gcd: divide / quo / rem with both signs, shifts in both
     directions, rationals (normalised through gcd), software floats; the value returned is itself
     several hundred digits long, so printing it formats a large number."""
-    e1, e2 = rng.range(120, 260), rng.range(9, 23)
+    # magnitudes: a few hundred bits, or several thousand (other code paths, other piece sizes)
+    e1, e2 = (rng.range(120, 260) if rng.chance(1, 2) else rng.range(1300, 3200)), rng.range(9, 23)
     d = '''
 bop%(u)s(n: SI): Integer == {
 	import from Ratio Integer, Float;
